@@ -34,7 +34,7 @@ import random
 import vlib
 from vlib import Stream, import_freephil, canon, obj_sx
 
-CODE_FIXED = False
+CODE_FIXED = True
 
 
 def _listed_open(fid):
@@ -49,11 +49,11 @@ def _listed_open(fid):
 
 
 F12_LISTED_OPEN = _listed_open("F12")
-F17_LISTED_OPEN = _listed_open("F17")
-# F17 (found by this check): scope.format emits no template for a .multiple DEFINITION, and push_state copies the
+F23_LISTED_OPEN = _listed_open("F23")
+# F23 (found by this check): scope.format emits no template for a .multiple DEFINITION, and push_state copies the
 # working tree with working_phil.fetch(), which takes the first occurrence as the master's template: after
 # update_from_python(p) with p.m == [3, 5], push_state(); pop_state() restores m == [5].  Set to True once repaired.
-F17_FIXED = False
+F23_FIXED = False
 
 # ----------------------------------------------------------------------------- recording of library calls
 class _Log:
@@ -389,7 +389,7 @@ def has_multi_def(case):
 
 
 def risky_f17(case):
-    """Signature of finding F17 on the case alone: the master has a .multiple definition and the history has an
+    """Signature of finding F23 on the case alone: the master has a .multiple definition and the history has an
     update_from_python, later a push_state / update_from_python (both stack working_phil.fetch()), later a pop_state."""
     if not has_multi_def(case):
         return False
@@ -443,7 +443,7 @@ class Histories(Stream):
              "ops": [["update", "m = 1\nm = 2\ng { k = 5 }\ng { k = 6 }", None, True], ["get"], ["update", "m = 7", None, True],
                      ["update", "m = 7", None, True], ["get"], ["ufp_mut", ["a"], 9], ["get"], ["pop"], ["update", "a = 3", None, True],
                      ["get"], ["lookup", "g.k"], ["lookup", "m"]]},
-            # F17 witness: push_state after update_from_python loses the first value of a .multiple definition
+            # F23 witness: push_state after update_from_python loses the first value of a .multiple definition
             {"m": "m = None\n  .type = int\n  .multiple = True\n", "P": [["m", "int", [], True, False]], "S": [], "v": True,
              "ops": [["update", "m = 3\nm = 5", None, True], ["get"], ["ufp_mut", ["m"], [3, 5]], ["push"], ["pop"], ["get"]]},
             # refused merge after the multiples were deleted (outside the domain: the edit is not valid)
@@ -459,7 +459,7 @@ class Histories(Stream):
         ]
 
     def cases(self, rng, tier):
-        n = int(os.environ.get("C20_N", 0)) or (700 if tier == "quick" else 6000)
+        n = 700 if tier == "quick" else 6000
         maxlen = 14 if tier == "quick" else 30
         for i in range(n):
             sub = random.Random(rng.getrandbits(48))
@@ -743,8 +743,8 @@ class Histories(Stream):
             return False          # refused / out-of-domain edits, reset_scope, erase_scope: correspondence only
         if not CODE_FIXED and not F12_LISTED_OPEN and risky_f12(case["ops"]) is not None:
             return False          # finding F12 (stale cache after pop_state/set_state), see match_finding
-        if not F17_FIXED and not F17_LISTED_OPEN and risky_f17(case):
-            return False          # finding F17 (push_state after update_from_python loses a .multiple definition's first value)
+        if not F23_FIXED and not F23_LISTED_OPEN and risky_f17(case):
+            return False          # finding F23 (push_state after update_from_python loses a .multiple definition's first value)
         return True
 
     def key(self, case, o):
@@ -787,7 +787,7 @@ def match_finding(finding, failure):
     """F12: the failing step is a get_python_object after a successful pop_state/set_state with no
     update/merge_phil in between (stale cache after pop_state/set_state)."""
     what = failure.get("what", "")
-    if finding.get("id") == "F17":
+    if finding.get("id") == "F23":
         # pop_state restored something else than what was current at the matching push, the master has a
         # .multiple definition and an update_from_python precedes (working tree = master.format(...) was stacked)
         if not what.startswith("pop:") or not has_multi_def(failure["case"]):
@@ -830,13 +830,19 @@ SPEC = {
                 "Oracles (not modelled, replayed from the recorded real calls, keyed by argument content): scope.fetch, scope.extract, scope.format; "
                 "freephil.parse (operations carry parsed trees); extracted python objects are opaque tokens (canonical dump)",
                 "Theorem hypotheses on the oracles: H_fmt (extract (format m p) = p on round-trip objects, C09), H_ext_ok (extracted objects are "
-                "round-trip objects), H_tmpl (is_template of a fetch result is -1, 0 or 1); C20_pop_restores_same: self-fetch identity (C07-like); "
-                "C20_update_twice: re-fetch stability of the updated tree (C07-like); both are checked on the implementation by prop",
+                "round-trip objects), H_tmpl (is_template of a fetch result is -1, 0 or 1); C20_pop_restores_same: self-fetch identity t.fetch() = t "
+                "(C07-like; the library VIOLATES it for master.format results with a .multiple definition: finding F23); C20_update_twice: H_refetch, "
+                "re-fetch stability of the updated tree (C07-like; no counterexample seen); both are evaluated on the implementation by prop",
+                "The theorems quantify over histories in which no step raised after it had already modified the index (run_ok); a merge_phil whose "
+                "fetch raises after delete_phil_objects has pruned the working tree leaves index and cache stale (reported, outside the domain: refused edit)",
                 "Object identity is modelled by position in the tree the index was built from; aliasing between the handed-out python object and "
                 "the cache is handled by the harness (mutation + update_from_python is one operation)"],
     "modelled": "interface.index control logic modelled by hand in Model/Index.v; fetch/extract/format are oracles answered from the recorded calls "
                 "of the real library (no claim about them in this check beyond the prop oracle: pop restores text, same update twice is idempotent)",
     "assumptions": ["masters are fully typed and alias-free; text restricted to code points < 256",
-                    "CODE_FIXED=%s (model replays %s pop_state/set_state)" % (CODE_FIXED, "repaired" if CODE_FIXED else "unrepaired (F12)")],
+                    "CODE_FIXED=%s (model replays %s pop_state/set_state); histories with the signature of F12 are %s the domain"
+                    % (CODE_FIXED, "repaired" if CODE_FIXED else "unrepaired (F12)", "inside" if (CODE_FIXED or F12_LISTED_OPEN) else "outside"),
+                    "F23_FIXED=%s: histories with the signature of F23 (update_from_python, later push_state/update_from_python, later pop_state, "
+                    "master with a .multiple definition) are %s the domain" % (F23_FIXED, "inside" if (F23_FIXED or F23_LISTED_OPEN) else "outside")],
     "match_finding": match_finding,
 }
